@@ -30,7 +30,7 @@ var verifC13Pos = [4]float32{4, 1, 7, 2}
 func verifC13Vec(i int) math.Vector { return math.Vector{verifC13Pos[i]} }
 
 type verifC13Op struct {
-	kind int // 0 insert, 1 remove, 2 search, 3 get+len
+	kind int // 0 insert, 1 remove, 2 search, 3 get+len, 4 get then search
 	id   int
 	lvl  int
 	k    int
@@ -38,6 +38,7 @@ type verifC13Op struct {
 	err  error
 	res  SearchResult
 	n    int
+	gerr error
 }
 
 func VerifC13() {
@@ -70,9 +71,9 @@ func VerifC13() {
 	for t := range ops {
 		var kind int
 		if t < writers {
-			kind = verifrt.Choose("op", kinds)
+			kind = verifrt.Bound("minkind", 0) + verifrt.Choose("op", kinds-verifrt.Bound("minkind", 0))
 		} else {
-			kind = 2 + verifrt.Choose("read-op", 2)
+			kind = 2 + verifrt.Bound("minread", 0) + verifrt.Choose("read-op", verifrt.Bound("readkinds", 2)-verifrt.Bound("minread", 0))
 		}
 		if kind <= 1 {
 			nw++
@@ -81,7 +82,7 @@ func VerifC13() {
 		switch op.kind {
 		case 0:
 			op.lvl = verifrt.IntIn("level", 0, maxLevel)
-		case 2:
+		case 2, 4:
 			op.k = verifrt.IntIn("k", 1, 2)
 			op.q = verifC13Pos[op.id]
 		}
@@ -141,6 +142,10 @@ func VerifC13() {
 			case 3:
 				_, op.err = idx.Get(verifId(op.id))
 				op.n = idx.Len()
+			case 4:
+				// one reader: first told that the item is gone, then searching
+				_, op.gerr = idx.Get(verifId(op.id))
+				op.res, op.err = idx.Search(context.Background(), math.Vector{op.q}, uint(op.k))
 			}
 		}()
 	}
@@ -212,7 +217,23 @@ func VerifC13() {
 	// concurrent reads
 	for _, op := range ops {
 		switch op.kind {
-		case 2:
+		case 2, 4:
+			if op.kind == 4 && op.gerr == ItemNotFoundError {
+				// the item was gone before the search began; only a concurrent insert of the
+				// same id can make it live again during the search
+				revived := false
+				for _, w := range writes {
+					if w.kind == 0 && w.id == op.id {
+						revived = true
+					}
+				}
+				if !revived {
+					for _, item := range op.res {
+						verifrt.Assert(verifIdIndex(item.Id) != op.id, "search-after-a-get-said-not-found-does-not-return-the-item")
+					}
+					verifrt.Tag("get-not-found-then-search")
+				}
+			}
 			verifrt.Assert(op.err == nil, "concurrent-search-succeeds")
 			verifrt.Assert(len(op.res) <= op.k, "concurrent-search-at-most-k")
 			for j, item := range op.res {
